@@ -25,10 +25,10 @@ CHECKS = {
     "C06": ("Hypothesis metamorphic test over the five substitution clauses, self-validating pairs",
             "Accepted vector + a non-empty subset of eligible substitutions of one clause (a)-(e); the check re-derives eligibility from the two vectors and compares exactly the scores the clause constrains. Evidence asserts that every eligible metric of every clause was substituted.",
             "Sampled; equivalence tables typed from the statement.", "4/C06"),
-    "C07": ("Hypothesis single/pair/triple generators against a model key from the reference parser",
+    "C07": ("Hypothesis single/pair/triple generators against a model key from the reference parser; copies (copy/deepcopy/pickle) and instances of a do-nothing subclass as further objects",
             "clean_vector() content, prefix handling, re-parse round trip and idempotence; == iff (version incl. minor, defined metric map) equal; hash/observables of equal objects; reflexive/symmetric/transitive; never equal to foreign values; one consistent relative metric order across all outputs of the run.",
             "Sampled over vectors and pair kinds (respelling, one/several metrics changed, 3.0/3.1 twin, other version, independent).", "4/C07"),
-    "C08": ("Hypothesis + deterministic covering set + interactive answer scripts + library-accepted mutants and one-edit-ball members, emitted after prior accessor calls; official vectorString regexes as oracle",
+    "C08": ("Hypothesis + deterministic covering set + interactive answer scripts (Hypothesis and atheris) + library-accepted mutants and one-edit-ball members, emitted after prior accessor calls; official vectorString regexes as oracle",
             "Every emitted string (cleaned vector, vector part of RH notation, builder result) is re-parsed by the library and matched (fullmatch) against the vectorString pattern of the pinned FIRST schema of its version; the covering set makes a one-metric ordering error visible regardless of seed.",
             "Official grammar = pattern of the pinned schemas; sampled over optional-metric subsets and answer scripts.", "4/C08"),
     "C09": ("seeded quotient classes with oracle-selected witnesses for every reachable (slot, score value), pinned band table",
@@ -37,10 +37,10 @@ CHECKS = {
     "C10": ("Hypothesis + covering set + seeded sweep of score-quotient classes + library-accepted mutants / ball members + objects from from_rh_vector, jsonschema validation against pinned FIRST schemas (Decimal-exact)",
             "as_json() for all four (sort, minimal) pairs, after a JSON round trip, validated with the draft each schema declares; two listed known findings are recognised by shape, normalised and the normalised document must validate completely.",
             "Pinned schema copies; additional properties are allowed by the schemas, so differently named v4 fields are unconstrained.", "4/C10"),
-    "C11": ("Hypothesis (incl. zero-score-biased generator) + covering set + seeded sweep of score-quotient classes against a model JSON document",
+    "C11": ("Hypothesis (incl. zero-score-biased generator) + covering set + seeded sweep of score-quotient classes against a model JSON document; library-accepted mutants; documents of copies (copy/deepcopy/pickle) and of from_rh_vector objects",
             "version/vectorString identify the input, every present score/severity equals oracle score/band, every metric field names the effective value (pinned value-name table), sort only orders keys, minimal output is a sub-dictionary that removes only whole undefined temporal/environmental groups.",
             "Value names from the FIRST schemas; v4 field names pinned from the pinned commit.", "4/C11"),
-    "C12": ("Hypothesis + deterministic sweep of all 101 scores and near-miss floats, float() as the definition of 'number', oracle base score",
+    "C12": ("Hypothesis + atheris coverage-guided RH strings + deterministic sweep of all 101 scores and near-miss floats, float() as the definition of 'number', oracle base score",
             "rh_vector() format and round trip; from_rh_vector accepts iff numeric score part, valid vector and exact equality with the oracle base score; error taxonomy (RH-malformed, mismatch, ordinary vector errors); only CVSSnError subclasses escape.",
             "Precedence between a bad score part and a bad vector part is not asserted.", "4/C12"),
     "C13": ("Hypothesis text generator (planted/near-valid/glued/repeated vectors, Unicode special delimiters) + deterministic delimiter sweep + atheris, reference acceptor as oracle",
@@ -52,13 +52,13 @@ CHECKS = {
     "C15": ("Hypothesis against model sub-vectors from the reference parser; re-assembly round trip",
             "temporal_vector()/environmental_vector() must equal the model string exactly (each metric once, specification order, input value / ND / X / base value) and base + both sub-vectors must be accepted and score identically.",
             "Sampled over v2/v3 vectors.", "4/C15"),
-    "C16": ("model-based Hypothesis test of the dialogue + covering set of every legal value + deterministic long-retry scripts",
+    "C16": ("model-based Hypothesis test of the dialogue + covering set of every legal value + deterministic long-retry scripts + atheris coverage-guided answer scripts (dialogue model inside the target)",
             "Answer scripts (retries, junk, empty, case variants, truncation) are fed to the builder through a counting fake stdin; an independent dialogue model must consume the same number of answers and produce the same vector; the class must accept it; EOF surfaces as EOFError.",
             "Asking order taken from the returned vector (any order accepted); prompts are not asserted.", "4/C16"),
-    "C17": ("Hypothesis-generated command lines, in-process main() with patched argv/stdin/stdout + real subprocess sample; API differential and dialogue model as oracle",
+    "C17": ("atheris coverage-guided command lines + Hypothesis-generated command lines (incl. POSIX cluster spellings), in-process main() with patched argv/stdin/stdout (return value = exit status) + real subprocess sample under both launchers, 26 child environments and working directories with a file named like the vector; API differential and dialogue model as oracle",
             "For generated flag sets, vectors (valid, other-version, mutants, arbitrary text) and stdin scripts (complete / truncated): exit status 0, no exception or traceback, report lines parsed by label equal the API's scores, ratings, cleaned and RH vector, -j document equals as_json(sort=True, minimal=True) incl. key order, invalid vector -> the library's message, EOF -> clean end.",
             "Several version flags: any selected version accepted; empty VECTOR read as absent; layout, banners and v2 ratings not asserted.", "4/C17"),
-    "C18": ("Hypothesis RuleBasedStateMachine over accessor calls and dict mutations, twin-object oracle; one object shared by 2-4 threads under a deterministic settrace scheduler with drawn schedules",
+    "C18": ("Hypothesis RuleBasedStateMachine over accessor calls, dict mutations, comparisons with foreign types and continuation on copies, twin-object oracle; one object shared by 2-4 threads under a deterministic settrace scheduler with drawn schedules",
             "Sequences of accessor calls (all public accessors, every as_json option pair), ==/hash against a twin and mutations of returned dicts; every result must equal what a twin object returned when that accessor was its first call; nothing may raise. Second generator: one object shared by threads whose interleaving (line granularity) is drawn by Hypothesis.",
             "Only observable results compared; sequences up to 30 (quick) / 50 (thorough) steps.", "4/C18"),
     "C19": ("Hypothesis stateful histories vs fresh interpreter processes + global-state snapshots (incl. before-import ambient state); deterministic settrace thread scheduler with drawn schedules (same or different jobs per thread, threads before the sequential reference); PYTHONHASHSEED sweep; decimal-context sweep vs exact oracles; ddmin with fresh-process judging for history-dependent failures",
@@ -90,7 +90,7 @@ def main():
             "engine": "vf",
             "level_claimed": {"category": "exploration", "text": text, "design_ref": "DESIGN.md " + ref},
             "level_note": note,
-            "technique": tech + ("" if pid == "C20" else "; a seeded sample of the executed cases is re-run by the same check functions in child interpreters with PYTHONOPTIMIZE=1 (thorough: also 2), with -bb, and after reloading every module of the package twice"),
+            "technique": tech + ("" if pid == "C20" else "; a seeded sample of the executed cases is re-run by the same check functions in child interpreters with PYTHONOPTIMIZE=1 (thorough: also 2), with -bb, after reloading every module of the package twice, and under host-application settings (logging at DEBUG, package imported under another decimal context)"),
         })
     claimed = set(c["property_id"] for c in checks)
     man = {
